@@ -16,6 +16,9 @@ import (
 
 var Root = "/verif"
 
+// Quiet suppresses the summary output (worker processes).
+var Quiet bool
+
 func init() {
 	if v := os.Getenv("VERIF_ROOT"); v != "" {
 		Root = v
@@ -234,4 +237,85 @@ func firstLines(s string, n int) string {
 		}
 	}
 	return strings.Join(ls, "\n  ")
+}
+
+// Export is the worker-to-parent transfer form of a Run.
+type Export struct {
+	Cov     map[string]any `json:"cov"`
+	Viol    []Replay       `json:"viol"`
+	Counts  map[string]int `json:"counts"`
+	Known   map[string]int `json:"known"`
+	Harness []string       `json:"harness"`
+	Samples []any          `json:"samples"`
+}
+
+func (r *Run) Export() Export {
+	r.mu.Lock()
+	defer r.mu.Unlock()
+	e := Export{Cov: r.Cov, Counts: r.violCount, Known: r.knownSeen, Harness: r.harnessErr, Samples: r.samples}
+	for _, sig := range r.violOrder {
+		e.Viol = append(e.Viol, *r.viol[sig])
+	}
+	return e
+}
+
+// Import merges a worker's export into r.
+func (r *Run) Import(e Export) {
+	for _, v := range e.Viol {
+		n := e.Counts[v.Sig]
+		if n < 1 {
+			n = 1
+		}
+		r.Violation(v)
+		r.mu.Lock()
+		if _, ok := r.violCount[v.Sig]; ok {
+			r.violCount[v.Sig] += n - 1
+		}
+		r.mu.Unlock()
+	}
+	r.mu.Lock()
+	for k, n := range e.Known {
+		r.knownSeen[k] += n
+	}
+	r.harnessErr = append(r.harnessErr, e.Harness...)
+	for _, s := range e.Samples {
+		if len(r.samples) < 12 {
+			r.samples = append(r.samples, s)
+		}
+	}
+	for k, v := range e.Cov {
+		switch x := v.(type) {
+		case float64:
+			old, _ := r.Cov[k].(int64)
+			r.Cov[k] = old + int64(x)
+		case bool:
+			if k == "exhaustive" && !x {
+				r.Cov[k] = false
+			}
+		case map[string]any:
+			m, _ := r.Cov[k].(map[string]int64)
+			if m == nil {
+				m = map[string]int64{}
+			}
+			for kk, vv := range x {
+				if f, ok := vv.(float64); ok {
+					m[kk] += int64(f)
+				}
+			}
+			r.Cov[k] = m
+		case []any:
+			switch old := r.Cov[k].(type) {
+			case []any:
+				r.Cov[k] = append(old, x...)
+			case []string:
+				for _, s := range x {
+					old = append(old, fmt.Sprint(s))
+				}
+				r.Cov[k] = old
+			case nil:
+				r.Cov[k] = x
+			}
+		}
+	}
+	r.mu.Unlock()
 }
